@@ -400,7 +400,7 @@ func (w *world) waitGone(a *appModel, j int) {
 }
 
 var recModel = kit.NewRecorder("C17", "model",
-	"1-3 applications with 1-4 members each, dependency DAG, spec modes; a generated history of <= 30 steps of {Load, Unload, Start (with dependencies) / StartTemporary / StartTransient / StartPermanent, optionally with the Init of member k failing, member k terminates normally / with shutdown / abnormally / is killed, two members terminate concurrently, Stop, StopForce, StopWithTimeout while a member is parked in a handler (then the member is released), Stop concurrent with a member crash}; "+
+	"1-3 applications with 1-4 members each, dependency DAG, spec modes; a generated history of <= 30 steps of {Load, Unload, Start (with dependencies) / StartTemporary / StartTransient / StartPermanent, optionally with the Init of member k failing, member k terminates normally / with shutdown / abnormally / is killed, two members terminate concurrently, a member crashes while another one is busy in a handler and is then killed, Stop, StopForce, StopWithTimeout while a member is parked in a handler (then the member is released), Stop concurrent with a member crash}; "+
 		"oracle: reference model of (loaded, running/stopping, mode, live members, start/terminate callback counts, admissible terminate reason) compared with ApplicationInfo, member liveness and an instrumented ApplicationBehavior after every step; return values of every call; dependencies finish starting before the dependent's first member, members start in spec order, start callback after them; a nil from a stop call implies state loaded and no member alive at that moment; "+
 		"non-trivial = a stop/crash overlapping another termination cause, or a start after the application had stopped once; distinct by history")
 
@@ -431,7 +431,7 @@ func TestModel(t *testing.T) {
 		steps := rapid.IntRange(4, 30).Draw(t, "steps")
 		for s := 0; s < steps; s++ {
 			a := w.apps[rapid.IntRange(0, napps-1).Draw(t, "app")]
-			op := rapid.SampledFrom([]string{"load", "load", "start", "start", "start", "start-mode", "start-fail", "die", "die", "die", "die2", "stop", "stop", "force", "parked-stop", "parked-stop", "finish-stop", "finish-stop", "stop+crash", "unload"}).Draw(t, "op")
+			op := rapid.SampledFrom([]string{"load", "load", "start", "start", "start", "start-mode", "start-fail", "die", "die", "die", "die2", "die2", "crash+kill-busy", "stop", "stop", "force", "parked-stop", "parked-stop", "finish-stop", "finish-stop", "stop+crash", "unload"}).Draw(t, "op")
 			switch op {
 			case "load":
 				_, err := w.node.ApplicationLoad(a.beh)
@@ -489,7 +489,8 @@ func TestModel(t *testing.T) {
 				if i2 >= i1 {
 					i2++
 				}
-				k1, k2 := rapid.IntRange(0, 3).Draw(t, "reason1"), rapid.IntRange(0, 3).Draw(t, "reason2")
+				// (two abnormal reasons are the interesting pair: the second one arrives while the first is being acted on)
+				k1, k2 := rapid.SampledFrom([]int{0, 1, 2, 3, 2, 3}).Draw(t, "reason1"), rapid.SampledFrom([]int{0, 1, 2, 3, 2, 3}).Draw(t, "reason2")
 				var r1, r2 error
 				var wg sync.WaitGroup
 				wg.Add(2)
@@ -529,6 +530,44 @@ func TestModel(t *testing.T) {
 					a.reasonOK = func(e error) bool { return ok1(e) || (ok2 != nil && ok2(e)) }
 					a.reasonIs = what1 + " or " + alt.reasonIs
 				}
+			case "crash+kill-busy":
+				// one member is busy in a handler, another one crashes (the application may begin to
+				// stop: the busy one cannot react to its exit signal yet), then the busy one is killed:
+				// a second, abnormal termination that arrives while the first is being acted on, and
+				// the last member to leave
+				l := a.aliveList()
+				if !a.running || a.stopping || len(l) < 2 {
+					continue
+				}
+				i1 := rapid.IntRange(0, len(l)-1).Draw(t, "busy-member")
+				i2 := rapid.IntRange(0, len(l)-2).Draw(t, "crashing-member")
+				if i2 >= i1 {
+					i2++
+				}
+				busy, victim := l[i1], l[i2]
+				blbl := label(a.idx, busy)
+				bpid, _ := w.pidOf(blbl)
+				g := kit.Gate{Entered: make(chan struct{}), Open: make(chan struct{})}
+				if err := w.node.Send(bpid, g); err != nil {
+					w.fatalf("park: %v", err)
+				}
+				<-g.Entered
+				kind := rapid.IntRange(2, 3).Draw(t, "reason")
+				reason := w.terminateMember(a, victim, kind)
+				w.waitGone(a, victim)
+				w.memberGone(a, victim, reason)
+				time.Sleep(time.Duration(rapid.IntRange(0, 2).Draw(t, "hold-ms")) * time.Millisecond)
+				w.node.Kill(bpid)
+				close(g.Open)
+				if !kit.WaitUntil(5*time.Second, func() bool { return w.probe.Terminated(blbl, bpid) }) {
+					w.fatalf("member %s was killed and did not terminate", blbl)
+				}
+				if a.running {
+					// (the first crash did not stop the application: the kill is a termination of its own)
+					w.memberGone(a, busy, gen.TerminateReasonKill)
+				}
+				w.logf("crash+kill-busy(%s,m%d:%v,busy m%d) mode=%s", a.name, victim, reason, busy, modeName(a.mode))
+				w.overlap = true
 			case "stop":
 				err := w.node.ApplicationStop(a.name)
 				w.logf("stop(%s)=%v", a.name, err)
